@@ -623,8 +623,7 @@ theorem inv_step (f : Fn) (ann : Ann) (hv : Verified f ann) (D : List Cell) (S A
     obtain ⟨hwf, succs, hast, hall⟩ := hv.step c.pc a i hann hi
     simp only [astep, he, hpos] at hast
     split at hast
-    · rename_i pre fr rest' pos' hcut hpos'
-      cases hpos'
+    · rename_i pre fr rest' hcut
       split at hast
       · rename_i hpk
         split at hast
@@ -648,7 +647,6 @@ theorem inv_step (f : Fn) (ann : Ann) (hv : Verified f ann) (D : List Cell) (S A
           · simp [hsc]; omega
         · cases hast
       · cases hast
-    · cases hast
     · cases hast
   | xfer i n hi he hn =>
     obtain ⟨hwf, succs, hast, hall⟩ := hv.step c.pc a i hann hi
